@@ -333,7 +333,9 @@ class Run:
         out_lines = []
         nviol = 0
         for (c, m, prelude, epilogue) in self.mismatches:
-            key = "%s:%s" % (m["kind"], m["sig"].replace(" ", "").replace('\\"', "").replace('"', ""))
+            # the signature reduced to a plain token (letters, digits and a little punctuation) so that
+            # known_findings.txt can name it without quoting rules
+            key = "%s:%s" % (m["kind"], re.sub(r"[^A-Za-z0-9_:.,<>/-]", "", m["sig"]))
             hit = None
             for k in known:
                 if k["key"] == m["kind"] or k["key"] == key or re.fullmatch(k["key"], key):
